@@ -58,6 +58,8 @@ def run(ctx):
     ctx.attempt(r54, ctx, rep, sv)
     ctx.attempt(r55, ctx, rep)
     ctx.attempt(r512, ctx, rep)
+    rep.rule('R5.13', 'key=None sorts by the header fields: the key function is built from the positions 0..len(header)-1 (missing cells None, cells beyond the header ignored), not from the raw row')
+    ctx.attempt(r513, ctx, rep, nc)
     # a look-ahead row must not be tested by truthiness (shared with C12 R12.7, restricted to sorts.py)
     from .c12 import r127
     rep.rule('R5.7', 'no row of the source is tested for truth in sorts.py (an empty row is falsy)')
@@ -606,3 +608,45 @@ def r512(ctx, rep):
                      'ragged input', elt)
     else:
         rep.undecided('R5.12', ims, 'inputs of the merge: ' + norm(elt)[:60], 'callee is not a generator of this module', elt)
+
+
+# ------------------------------------------------------------------------- R5.13
+def r513(ctx, rep, nc):
+    """sort(t) with no key orders rows by all header fields: rows that agree on them are equal for the sort (and keep
+    their input order) whatever they carry beyond the header, and a short row is compared with None in the missing
+    positions.  On the path `key is None` the key function must therefore be comparable_itemgetter over
+    range(len(header)) -- Comparable(row) would compare the raw rows."""
+    from ..ladder import paths, resolve, test_defs
+    defs = test_defs(nc.node)
+    seen = False
+    for p in paths(nc.node.body, {'key is None': True}, defs, limit=64):
+        # the first sort / islice tells which name is the key function
+        uses = [c for st in p.effects for c in ast.walk(st) if isinstance(c, ast.Call) and
+                isinstance(c.func, ast.Attribute) and c.func.attr == 'sort' and any(k.arg == 'key' for k in c.keywords)]
+        if not uses:
+            continue
+        kexpr = [k.value for k in uses[0].keywords if k.arg == 'key'][0]
+        idx = [i for i, st in enumerate(p.effects) if any(x is uses[0] for x in ast.walk(st))][0]
+        from ..ladder import decide_ifexps
+        val = decide_ifexps(resolve(kexpr, p.effects[:idx]), {'key is None': True}, defs)
+        seen = True
+        c = 'key function when key is None: %s' % norm(val)[:60]
+        ok = False
+        if isinstance(val, ast.Call) and norm(val.func) == 'comparable_itemgetter' and len(val.args) == 1 and \
+                isinstance(val.args[0], ast.Starred):
+            inner = val.args[0].value
+            while isinstance(inner, ast.Call) and isinstance(inner.func, ast.Name) and inner.func.id in ('list', 'tuple') and len(inner.args) == 1:
+                inner = inner.args[0]
+            t = norm(inner)
+            if re.match(r'^range\((0, )?len\(.+\)\)$', t):
+                ok = True
+        if ok:
+            rep.held('R5.13', nc, c, 'positions of the header', uses[0])
+        else:
+            rep.violated('R5.13', nc, c,
+                         'with key=None the rows are sorted by `%s`, not by the cells at the header positions: cells beyond '
+                         'the header break ties and a short row no longer compares like a row padded with None, so rows '
+                         'that are equal on the header fields do not keep their input order' % norm(val)[:50], uses[0])
+        break
+    if not seen:
+        rep.undecided('R5.13', nc, 'key function when key is None', 'no rows.sort(key=...) found on that path', nc.node)
